@@ -24,6 +24,7 @@ EXPLANATION = (
     'context. C15.R6 (fold): CompositePropagator::Inject calls every propagator without early exit; in Extract the context '
     'argument of each iteration is the result of the previous one on every feasible path (the parameter only in the first '
     'iteration) and the accumulator is returned.')
+EXPLANATION += ' C15.R3 also requires the 4096 limit to be tested on key and value as the tokenizer delivered them (no re-assignment reaching the guard); C15.R4 that ToHeader passes the stored text (or its part before the metadata separator) to UrlEncode unaltered; C15.R5 that the baggage is set into the context Extract was given.'
 NOT_DECIDED = 'round trip over all printable inputs; freedom from out-of-bounds reads on arbitrary bytes beyond the escape guard.'
 
 TOKEN = CTYPE['isalnum'] | frozenset(map(ord, '-_.~'))
